@@ -207,6 +207,14 @@ def IdxState.get (s : IdxState) (u : Unk) : Nat :=
 def IdxState.touch (s : IdxState) (u : Unk) : IdxState :=
   if s.get u = 0 then ⟨s.maxn + 1, (u, s.maxn + 1) :: s.tab⟩ else s
 
+/-- prologue of `LocalNetwork::project_equations()`: the three indexes of every point that
+    satisfies the guard are zeroed, `index_orientation(0)` for every stand-point, and a new
+    `LocalLinearization` starts with `maxn = 0`.  Points failing the guard KEEP their indexes. -/
+def IdxState.resetPass (guard : Nat → Bool) (s : IdxState) : IdxState :=
+  ⟨0, s.tab.filter (fun e => match e.1.c with
+                             | .ori => false
+                             | _ => !(guard e.1.id))⟩
+
 /-- one observation: the events in program order; returns the rows `(index, coeff)` -/
 def runEvs {K : Type} (name : Role → Coord → Unk) :
     List (Ev K) → IdxState → IdxState × List (Nat × K)
